@@ -74,7 +74,11 @@ def render(e, lam):
     if t == "f":
         return ("pkt." + e[1]) if lam else e[1]
     if t == "c":
-        return repr(e[1])
+        v = e[1]
+        # parenthesise negative numbers: -1 ** x is -(1 ** x) in Python
+        if isinstance(v, (int, float)) and not isinstance(v, bool) and v < 0:
+            return "(%r)" % (v,)
+        return repr(v)
     if t == "rawrem":
         assert lam
         return "(len(k['raw']) - k['offset'])"
